@@ -26,6 +26,9 @@ type multiFetcher struct {
 	//
 	// Used to identify which fetcher to get the rest of the fields from in `GetFields`.
 	currentFetcherIndex int
+
+	// True while the document returned by the last `NextDoc` call has not had its fields requested.
+	hasSelectedDoc bool
 }
 
 var _ fetcher = (*multiFetcher)(nil)
@@ -55,6 +58,14 @@ type fetcherDocID struct {
 }
 
 func (f *multiFetcher) NextDoc() (immutable.Option[string], error) {
+	// If the fields of the previously selected document were never requested, the caller has skipped
+	// it (for example because access to it was denied) and we must move past it, otherwise the same
+	// document would be selected again.
+	if f.hasSelectedDoc && f.currentFetcherIndex < len(f.children) {
+		f.children[f.currentFetcherIndex].docID = immutable.None[string]()
+	}
+	f.hasSelectedDoc = false
+
 	selectedFetcherIndex := -1
 	var selectedDocID immutable.Option[string]
 
@@ -90,6 +101,7 @@ func (f *multiFetcher) NextDoc() (immutable.Option[string], error) {
 	}
 
 	f.currentFetcherIndex = selectedFetcherIndex
+	f.hasSelectedDoc = selectedDocID.HasValue()
 	return selectedDocID, nil
 }
 
@@ -100,6 +112,7 @@ func (f *multiFetcher) GetFields() (immutable.Option[EncodedDocument], error) {
 	}
 
 	f.children[f.currentFetcherIndex].docID = immutable.None[string]()
+	f.hasSelectedDoc = false
 
 	return doc, nil
 }
